@@ -359,6 +359,10 @@ func (e *Env) EvictNodeCaches() {
 	})
 	l1.DeleteNodes(Ctx, ids)
 	l1.Handles.Clear()
+	// nodes whose blob file is gone (deleted by a cleanup - or by a defect) are not in the list above: push everything
+	// out of L1 and drop the L2 entries too, so that nothing is served from memory that the disk no longer has
+	e.EvictL1Only()
+	e.L2.Clear(Ctx)
 }
 
 // EvictL1Only pushes every real node out of the process L1 cache (by filling it with placeholder nodes, which are
